@@ -17,7 +17,7 @@ import ast
 import itertools
 from typing import Optional
 
-from ..core import AnalysisError, ClassInfo, FuncInfo, norm, self_attr, short, walk_local
+from ..core import AnalysisError, ClassInfo, FuncInfo, call_name, norm, self_attr, short, walk_local
 from ..engine import Engine
 from ..exact import AV, INT, ONE, OTHER, ROUNDED, TUP, UNKNOWN, add, as_int, div, form, form_add, form_const, form_str, form_subst_zero, mul
 from ..report import Check
@@ -521,6 +521,89 @@ def find_witness(expr: str, atoms: list[str], fixed: dict, bound: int = 12) -> O
     return wit
 
 
+def forwarded_yields(chk: Check, eng: Engine, rule: str) -> None:
+    """The evaluator marks a tree as reported (`_solution_set`) at the moment it *yields* it; a later evaluation of the same tree yields
+    nothing.  So whoever drives an evaluator generator must pass its yields on: `yield from <call>`, or
+    `sols, ret = GeneratorWithReturn(<call>).collect()` with `sols` yielded / stored for a later yield.  A caller that only wants the return
+    value and lets the yields go loses solutions for good (they were evaluated, scored 1.0 and are never reported)."""
+    EVAL = {"evaluate_individual", "evaluate_population"}
+    n = 0
+    for f in eng.ix.all_functions:
+        if not f.module.startswith(("fandango.evolution.algorithm", "fandango.evolution.population", "fandango.api")):
+            continue
+        # callables bound to an evaluator method by the callers (refill_population(eval_individual=...))
+        evalish = set(EVAL) | {p_ for p_ in f.params() if p_.startswith("eval")}
+        from ..core import parents_map, ancestors
+        pm = None
+        for c in walk_local(f.node):
+            if not (isinstance(c, ast.Call) and ((isinstance(c.func, ast.Attribute) and c.func.attr in EVAL) or (isinstance(c.func, ast.Name) and c.func.id in evalish))):
+                continue
+            if pm is None:
+                pm = parents_map(f.node)
+            anc = ancestors(pm, c)
+            if f.name == "_generate_io":
+                # protocol mode: the evaluated tree is the history extended by a *received* packet - it is checked, not offered as a solution (C20 / R20-d)
+                chk.ok(rule, f.fq, c.lineno, f"`{short(c, 50)}` (protocol mode: acceptance test of a received message, see R20-d)", nontrivial=False)
+                continue
+            n += 1
+            if anc and isinstance(anc[0], ast.YieldFrom):
+                chk.ok(rule, f.fq, c.lineno, f"`yield from {short(c, 50)}` forwards the evaluator's yields")
+                continue
+            # argument of another call: handing the generator (or the bound method) on, e.g. mutate(..., evaluate_func)
+            wrapper = next((a for a in anc if isinstance(a, ast.Call) and call_name(a) == "GeneratorWithReturn"), None)
+            if wrapper is None:
+                passed = next((a for a in anc if isinstance(a, ast.Call) and a is not c), None)
+                if passed is not None or f.is_generator() is False and any(isinstance(a, ast.Return) for a in anc):
+                    chk.ok(rule, f.fq, c.lineno, f"`{short(c, 50)}` is handed on to `{short(passed, 40) if passed is not None else 'the caller'}`", nontrivial=False)
+                    continue
+                chk.bad(rule, eng.relfile(f), c.lineno, f.fq, f"`{short(c, 60)}` creates an evaluator generator that is neither forwarded with `yield from` nor collected",
+                        "the evaluation may never run, or its solutions are never reported", keyparts=f"evaluator-not-driven|{f.name}")
+                continue
+            # GeneratorWithReturn(<call>): who takes the first component of .collect()?
+            holder = None  # local name of the GeneratorWithReturn object, if stored first
+            target = None  # name / attribute the list of yields is bound to
+            for a in anc:
+                if isinstance(a, ast.Assign):
+                    if isinstance(a.value, ast.Call) and call_name(a.value) == "GeneratorWithReturn" and isinstance(a.targets[0], ast.Name):
+                        holder = a.targets[0].id
+                    elif isinstance(a.targets[0], ast.Tuple) and a.targets[0].elts:
+                        target = a.targets[0].elts[0]
+                    break
+            if holder is not None:
+                # `g = GeneratorWithReturn(call)` ... `g.collect()` / `x, y = g.collect()` / `for t in g`
+                for a in walk_local(f.node):
+                    if isinstance(a, ast.Assign) and isinstance(a.value, ast.Call) and isinstance(a.value.func, ast.Attribute) and a.value.func.attr == "collect" and norm(a.value.func.value) == holder \
+                            and isinstance(a.targets[0], ast.Tuple):
+                        target = a.targets[0].elts[0]
+                    if isinstance(a, (ast.For, ast.YieldFrom)) and norm(getattr(a, "iter", getattr(a, "value", None))) == holder:
+                        target = ast.Name(id=holder, ctx=ast.Load())
+            used = False
+            if target is not None and not (isinstance(target, ast.Name) and target.id.startswith("_")):
+                tname = norm(target)
+                for y in walk_local(f.node):
+                    if isinstance(y, (ast.YieldFrom, ast.Yield)) and y.value is not None and tname in {norm(x) for x in ast.walk(y.value)}:
+                        used = True
+                    if isinstance(y, ast.Return) and y.value is not None and tname in {norm(x) for x in ast.walk(y.value)}:
+                        used = True
+                    if isinstance(y, ast.Call) and any(norm(x) == tname for a_ in y.args for x in ast.walk(a_)) and call_name(y) in ("extend", "append", "update", "add", "list", "next", "iter"):
+                        used = True
+                    if isinstance(y, ast.For) and norm(y.iter) == tname:
+                        used = True
+                if isinstance(target, ast.Attribute) and self_attr(target):
+                    # stored on the object: some generator method of the class must yield it later
+                    attr = self_attr(target)
+                    used = any(isinstance(y, (ast.YieldFrom, ast.Yield)) and y.value is not None and any(self_attr(x) == attr for x in ast.walk(y.value))
+                               for m in (f.cls.methods.values() if f.cls else []) for y in walk_local(m.node))
+            if used:
+                chk.ok(rule, f.fq, c.lineno, f"`{short(c, 40)}` is collected and its yields (`{norm(target)}`) are passed on")
+            else:
+                chk.bad(rule, eng.relfile(f), c.lineno, f.fq, f"the trees `{short(c, 50)}` yields are collected and dropped" + (f" (bound to `{norm(target)}`, never yielded)" if target is not None else ""),
+                        "the evaluator has already recorded them as reported: a tree that satisfies every constraint - e.g. a freshly mutated individual evaluated here for the "
+                        "first time - is never handed out as a solution", keyparts=f"yields-dropped|{f.name}")
+    if n < 6:
+        raise AnalysisError(f"only {n} evaluator call sites found in the search pipeline")
+
+
 def run(chk: Check, eng: Engine) -> None:
     chk.rule("R03-a", "under H (every per-constraint fitness() is 1.0, first evaluation, no soft constraints) the operand of "
              "every acceptance-threshold comparison in evaluate_individual is exactly 1.0 for all (h, r), and the comparison "
@@ -539,6 +622,8 @@ def run(chk: Check, eng: Engine) -> None:
         else:
             chk.bad("R03-e", eng.relfile(_st.fn), _st.line, _st.fn.fq, f"when the comparison holds, the score from {_st.via} ranges over {_st.holding}, not exactly 1.0",
                     "a satisfied comparison is recorded as failing (verdict `all(score == 1.0)`): a tree satisfying every constraint is never reported", keyparts="holding-score-not-one")
+    chk.rule("R03-f", "the trees an evaluator call yields (the solutions it reports) are forwarded by every caller of the search pipeline, never dropped", floor=6)
+    forwarded_yields(chk, eng, "R03-f")
     chk.not_decided.append("that success of arbitrary user expressions coincides with fitness()==1.0 beyond the accumulator shapes of R02-c/R07-c")
 
     from .c02 import classification_status
@@ -704,6 +789,8 @@ _EV = "src/fandango/evolution/evaluation.py"
 _FT = "src/fandango/constraints/fitness.py"
 _CMP = "src/fandango/constraints/comparison.py"
 MUTANTS = [
+    M("fix-phase-drops-the-evaluators-yields", "src/fandango/evolution/algorithm.py", "                ) = yield from self.evaluator.evaluate_individual(ind)\n", "                ) = GeneratorWithReturn(self.evaluator.evaluate_individual(ind)).collect()[1]\n", "R03-f"),
+    M("refill-forgets-first-evaluation", "src/fandango/evolution/population.py", "                    yield from found_solution\n                    yield from new_found_solution\n", "                    yield from new_found_solution\n", "R03-f"),
     M("holding-comparison-scored-by-distance", _CMP, "        if self._operator.compare(left, right):\n            return 1.0, NopSuggestion()\n",
       "        if self._operator.compare(left, right) and self._operator == Comparison.EQUAL:\n            return 1.0, NopSuggestion()\n", "R03-e"),
     M("seen-before-threshold", _EV, "        if fitness >= self._expected_fitness and key not in self._solution_set:\n            self._solution_set.add(key)\n            yield individual\n",
